@@ -1045,8 +1045,11 @@ class Frame(object):
         if self.waterfall is None:
             path = pathlib.Path(__file__).parent.resolve() / "assets/sample.fil"
             self.waterfall = Waterfall(str(path), max_load=max_load)
-            self.waterfall.header['source_name'] = self.source_name
             self.waterfall.header['rawdatafile'] = 'Synthetic'
+
+        # The frame's current source name, also if it was re-assigned since the
+        # Waterfall object was created
+        self.waterfall.header['source_name'] = self.source_name
 
         # Describe the container by the current frame. This is also needed for
         # existing Waterfalls, since derived frames (slices, de-drifted frames)
